@@ -24,12 +24,17 @@ Section Load.
   Variable topo : list event -> list event.      (* ReverseTopologicalOrdering(events, sortOrder) *)
 
   (* LoadAndVerify keeps an input only when NewEventFromUntrustedJSON returned no error at all
-     (a persistable size error is an error here) *)
-  Definition loaded_one (p : parsed) : list event :=
-    match p with POk e => [e] | _ => [] end.
-  Definition loaded (l : list parsed) : list event := flat_map loaded_one l.
-  Definition n_errors (l : list parsed) : nat :=
-    length (filter (fun p => match p with POk _ => false | _ => true end) l).
+     (a persistable size error is an error here) and, since the fix for finding C14-dup, when no
+     earlier kept input has the same event ID; everything else becomes an error result *)
+  Fixpoint loaded_from (seen : list N) (l : list parsed) : list event :=
+    match l with
+    | [] => []
+    | POk e :: r =>
+        if mem_N (eid e) seen then loaded_from seen r else e :: loaded_from (eid e :: seen) r
+    | _ :: r => loaded_from seen r
+    end.
+  Definition loaded (l : list parsed) : list event := loaded_from [] l.
+  Definition n_errors (l : list parsed) : nat := length l - length (loaded l).
 
   (* steps 2, 4, 5 for one event. None = the model ran out of fuel. *)
   Definition classify (fuel gfuel : nat) (e : event) (ps : PS) : option lclass * PS :=
